@@ -580,5 +580,5 @@ func TestC07Kill(t *testing.T) {
 			run(c, t.Fatalf)
 		}
 	}
-	rapid.Check(t, func(rt *rapid.T) { run(genKillCase(rt), rt.Fatalf) })
+	checkBudget(t, func(rt *rapid.T) { run(genKillCase(rt), rt.Fatalf) })
 }
